@@ -203,7 +203,8 @@ func checkC16(w *Workload) *Outcome {
 var c16Fixtures = []string{"flat24", "nest", "tiny", "deep", "samename", "rep3"}
 
 func TestC16(t *testing.T) {
-	cfg := wlCfg{fixtures: fixturesFromEnv(c16Fixtures), maxRecs: envInt("VERIF_MAXRECS", 80), gen: vt.DefaultGen}
+	cfg := wlCfg{fixtures: fixturesFromEnv(c16Fixtures), maxRecs: envInt("VERIF_MAXRECS", 80), gen: vt.DefaultGen, bigPct: 5}
+	cfg.gen.LongStr = 6000 // page statistics (min/max) longer than 4 KiB
 	rapid.Check(t, func(t *rapid.T) {
 		w := genWorkload(t, cfg)
 		o := checkC16(w)
